@@ -1,6 +1,6 @@
 ENGINES = [
     {"name": "gatebox", "path": "/verif/kit", "kind_free_text": "stateless DFS (CHESS-style, iterated deviation bound) over the environment schedule of the REAL engine running inside a testing/synctest bubble; plugins, store, clock and control calls are gates owned by the explorer",
-     "serves_properties": []},
+     "serves_properties": ["C01", "C04", "C05"]},
     {"name": "seqbox", "path": "/verif/harness", "kind_free_text": "bounded-exhaustive enumeration / explicit-state BFS over real sequential cores against boring reference models",
      "serves_properties": ["C20"]},
     {"name": "crashbox", "path": "/verif/kit", "kind_free_text": "crash-point enumeration: every prefix of every explored history + real restart; syscall-level kill injection for file writes",
@@ -8,7 +8,22 @@ ENGINES = [
 ]
 NOTES = "All checks run the real implementation from /repo's current working tree through a generated build overlay; see DESIGN.md."
 NOT_APPLICABLE = {}
+FLOW_NOTE = ("Bounded: 1-2 sources x 1-3 destinations, 2-3 records, deviation bound as reported in evidence (bounds iterated 0,1,2,...); interleavings between "
+             "scheduling points rely on data-race freedom; gRPC transport and real connectors are replaced by scripted plugins on the real built-in dispenser/adapter/in-memory stream; "
+             "the KV store is a transactional in-memory store with failing writes (no torn writes).")
+FLOW_LEVEL = ("Stateless model checking of the implementation: the real lifecycle service (v1 and arch-v2), nodes/worker, connector.Source/Destination, persister and stores run inside a "
+              "testing/synctest bubble; every reply of the scripted source/destination/DLQ plugins, every store commit and every control call (start, stop-and-wait, force stop) is a gate; "
+              "the explorer enumerates every order and answer of the pending gates up to the deviation bound (CHESS-style iterated bounding, DFS by replay of named choices) and evaluates the oracle on the event log of every execution. ")
 TEXT = {
+    "C01": {"engine": "gatebox", "technique": "stateless model checking of the real engine (environment-schedule DFS, iterated deviation bound) with an event-log monitor",
+            "level": FLOW_LEVEL + "Oracle: at every ack seen by a source plugin, every destination has positively confirmed the record, or the DLQ confirmed it.",
+            "design_ref": "DESIGN.md section 6, C01", "note": FLOW_NOTE},
+    "C04": {"engine": "gatebox", "technique": "stateless model checking of the real engine (environment-schedule DFS, iterated deviation bound) with an event-log monitor",
+            "level": FLOW_LEVEL + "Oracle: per source and run, the sequence of positions acknowledged to the plugin is a prefix of the emitted sequence (order, no gaps, no repeats).",
+            "design_ref": "DESIGN.md section 6, C04", "note": FLOW_NOTE},
+    "C05": {"engine": "gatebox", "technique": "stateless model checking of the real engine (environment-schedule DFS, iterated deviation bound) with an event-log monitor",
+            "level": FLOW_LEVEL + "Oracle: per (destination, source) the received records are strictly increasing in read order within one run; nothing is written twice.",
+            "design_ref": "DESIGN.md section 6, C05", "note": FLOW_NOTE},
     "C20": {
         "engine": "seqbox",
         "technique": "bounded-exhaustive enumeration of error trees (explicit-state, reference by structural recursion) + exhaustive call-site scan closing the alphabet",
